@@ -196,7 +196,7 @@ def _forest(ctx, col):
     s, a, e = I.elem(STATE, ZERO), I.elem(ACTION, ZERO), I.elem(EVENT, ZERO)
     Sm1 = T_sub(cfgsym("S"), K(1))
     cut, fire = T_cmp("Eq", a, K(1)), T_cmp("Eq", e, K(1))
-    want_next = ("app", "array", (("tuple", (("app", "where", (("app", "or", (cut, fire)), ZERO, ("app", "minimum", (T_add(s, K(1)), Sm1)))),)),))
+    want_next = ("app", "array", (("tuple", (("app", "where", (("app", "or", (cut, fire)), ZERO, I.pointwise("minimum", [T_add(s, K(1)), Sm1]))),)),))
     ok = same(nxt, want_next)
     col.add("R15.3", "Forest.transition", owner.module.relpath, fn.lineno, ok,
             "next age = 0 if cut or fire else min(age + 1, S - 1)" if ok else f"successor is {brief(nxt, 300)}", text="successor composition")
